@@ -6,6 +6,7 @@ import RubatoModel.SincTable
 import RubatoModel.Fft
 import RubatoModel.Wrappers
 import RubatoModel.Kernels
+import RubatoModel.FftUnitModel
 
 namespace Rubato.Driver
 open Rubato
@@ -158,21 +159,6 @@ def sizeSpec (s : String) (next max : Nat) : Option Nat :=
 
 def lastOverride (l : List (Nat × Nat)) (ch : Nat) (dflt : Nat) : Nat :=
   l.foldl (fun acc p => if p.1 == ch then p.2 else acc) dflt
-
-/-! ### slots -/
-
-/-- trivial FFT unit for the control-only twin: block contents are not modelled in the driver -/
-def unitUnit (fftOut : Nat) : FftUnit Unit Unit :=
-  { init := (), run := fun _ _ => (List.replicate fftOut (), ()) }
-
-inductive Slot where
-  | a64 (s : AState Float Float) (consumed : Nat)
-  | a32 (s : AState Float Float32) (consumed : Nat)
-  | fft (s : FState Unit Unit) (consumed : Nat)
-
-structure Sess where
-  slots : Array (Option Slot) := #[]
-  dead : Bool := false
 
 /-! ### async ops, generic in the sample type -/
 
@@ -328,110 +314,151 @@ def newAsync (kind : AKind) (p : List String) : Option (Except CErr (AState Floa
 
 end
 
-/-! ### FFT ops (control plane only in the driver) -/
+/-! ### FFT ops: control plane always; data plane through the naive-DFT unit model when the blocks are small -/
 
-def gettersF (s : FState Unit Unit) : String :=
+/-- largest FFT block for which the driver runs the naive-DFT unit (quadratic cost) -/
+def fftModelLimit : Nat := 700
+
+structure FftSlot (σ : Type) where
+  s : FState σ (Array σ)
+  tables : UnitTables σ
+  modelled : Bool
+
+section
+variable {σ : Type} [SNum Float σ] [STrig σ] [Inhabited σ]
+
+def FftSlot.unit (f : FftSlot σ) : FftUnit σ (Array σ) :=
+  if f.modelled then UnitTables.unit (ρ := Float) f.tables
+  else { init := #[], run := fun st _ => (List.replicate f.s.fftOut (SNum.zero (ρ := Float)), st) }
+
+def gettersF (s : FState σ (Array σ)) : String :=
   s!"g {s.inputFramesNext} {s.inputFramesMax DivArith.f32} {s.outputFramesNext DivArith.f32} {s.outputFramesMax} {s.outputDelay} {s.nch}"
 
-def opFft (s : FState Unit Unit) (consumed : Nat) (op : String) (t : List String) :
-    FState Unit Unit × Nat × String × Bool :=
-  let bad := (s, consumed, "bad-op", false)
+def f32Cutoff (n : Nat) : Float :=
+  (Rubato.Gen.Win.calculate_cutoff (ρ := Float) (σ := Float32) n .blackmanHarris2).toFloat
+
+def opFft (ofF : Float → σ) (f : FftSlot σ) (consumed : Nat) (op : String) (t : List String) :
+    FftSlot σ × Nat × String × Bool :=
+  let s := f.s
+  let bad := (f, consumed, "bad-op", false)
   let da := DivArith.f32
-  let u := unitUnit s.fftOut
+  let u := f.unit
   let inNext := s.inputFramesNext
   let inMax := s.inputFramesMax da
   let outNext := s.outputFramesNext da
   let outMax := s.outputFramesMax
-  let mkIn (nGiven lenAll : Nat) (o : CallOpts) (mask : Option (List Bool)) : List (List Unit) :=
-    (List.range nGiven).map fun ch =>
-      let len := lastOverride o.si ch lenAll
-      let act := match mask with
-        | none => true
-        | some m => (m[ch]?).getD true
-      List.replicate (if o.em && !act then 0 else len) ()
-  let coreF : Core (FState Unit Unit) (List Unit) :=
+  let coreF : Core (FState σ (Array σ)) (List σ) :=
     { inNext := FState.inputFramesNext, outNext := FState.outputFramesNext da, nch := fun s => s.nch,
       proc := fun s inp lens mask =>
-        match s.process da (unitUnit s.fftOut) inp lens mask with
+        match s.process da u inp lens mask with
         | (s', .ok r) => (s', .ok (r.nIn, r.nOut, r.out))
         | (s', .err e) => (s', .err e)
         | (s', .panic m) => (s', .panic m)
         | (s', .abort m) => (s', .abort m),
-      size := List.length, zeros := fun n => List.replicate n (), takeN := fun x n => x.take n,
+      size := List.length, zeros := fun n => List.replicate n (SNum.zero (ρ := Float)), takeN := fun x n => x.take n,
       append := fun a b => a ++ b, empty := [] }
+  let dsec (outs : List (Option (List σ))) (dump : Bool) : String :=
+    if f.modelled then dataSection (outs.map (Option.map List.toArray)) dump else "d ?"
   match op with
   | "proc" | "part" =>
     match t with
-    | m :: insz :: outsz :: _sg :: rest =>
-      match parseMask m, parseOpts rest with
-      | some mask, some o =>
+    | m :: insz :: outsz :: sg :: rest =>
+      match parseMask m, Sig.parse sg, parseOpts rest with
+      | some mask, some sig, some o =>
         let partial_ := op == "part"
         let inNone := partial_ && insz == "none"
         match (if inNone then some 0 else sizeSpec insz inNext inMax), sizeSpec outsz outNext outMax with
         | some inlen, some outlen =>
-          let input := mkIn (o.ic.getD s.nch) inlen o mask
+          let input := (makeInput ofF sig consumed (o.ic.getD s.nch) inlen o mask inNext inMax).map Array.toList
           let outLens := (List.range (o.oc.getD s.nch)).map fun ch => lastOverride o.so ch outlen
           let input' := if partial_ then paddedInput coreF s (if inNone then none else some input) else input
           let (s', r) := s.process da u input' outLens mask
           let al := if partial_ then "+" else "0"
           match r with
-          | .ok c => (s', consumed + c.nIn, s!"ok {c.nIn} {c.nOut} | {gettersF s'} | a{al} | u1 | d ?", false)
-          | .err e => (s', consumed, s!"{e.render} | {gettersF s'} | a{al} | u1 | d", false)
-          | .panic m => (s', consumed, "panic " ++ m, true)
-          | .abort m => (s', consumed, "abort " ++ m, true)
+          | .ok c => ({ f with s := s' }, consumed + c.nIn,
+              s!"ok {c.nIn} {c.nOut} | {gettersF s'} | a{al} | u1 | {dsec c.out o.dump}", false)
+          | .err e => ({ f with s := s' }, consumed, s!"{e.render} | {gettersF s'} | a{al} | u1 | d", false)
+          | .panic m => ({ f with s := s' }, consumed, "panic " ++ m, true)
+          | .abort m => ({ f with s := s' }, consumed, "abort " ++ m, true)
         | _, _ => bad
-      | _, _ => bad
+      | _, _, _ => bad
     | _ => bad
   | "procw" | "partw" =>
     match t with
-    | m :: insz :: _sg :: rest =>
-      match parseMask m, parseOpts rest with
-      | some mask, some o =>
+    | m :: insz :: sg :: rest =>
+      match parseMask m, Sig.parse sg, parseOpts rest with
+      | some mask, some sig, some o =>
         let partial_ := op == "partw"
         let inNone := partial_ && insz == "none"
         match (if inNone then some 0 else sizeSpec insz inNext inMax) with
         | some inlen =>
-          let input := mkIn (o.ic.getD s.nch) inlen o mask
+          let input := (makeInput ofF sig consumed (o.ic.getD s.nch) inlen o mask inNext inMax).map Array.toList
           let (s', r) := if partial_ then processPartialW coreF s (if inNone then none else some input) mask
                          else processW coreF s input mask
           match r with
           | .ok outs =>
             let lens := ",".intercalate (outs.map fun v => toString v.length)
-            (s', consumed + inNext, s!"ok {lens} | {gettersF s'} | a+ | u1 | d ?", false)
-          | .err e => (s', consumed, s!"{e.render} | {gettersF s'} | a+ | u1 | d", false)
-          | .panic m => (s', consumed, "panic " ++ m, true)
-          | .abort m => (s', consumed, "abort " ++ m, true)
+            ({ f with s := s' }, consumed + inNext,
+              s!"ok {lens} | {gettersF s'} | a+ | u1 | {dsec (outs.map some) o.dump}", false)
+          | .err e => ({ f with s := s' }, consumed, s!"{e.render} | {gettersF s'} | a+ | u1 | d", false)
+          | .panic m => ({ f with s := s' }, consumed, "panic " ++ m, true)
+          | .abort m => ({ f with s := s' }, consumed, "abort " ++ m, true)
         | none => bad
-      | _, _ => bad
+      | _, _, _ => bad
     | _ => bad
   | "ratio" | "rel" =>
     let (s', r) := s.setRatio
     let st := match r with
       | .ok () => "ok"
       | .error e => e.render
-    (s', consumed, s!"{st} | {gettersF s'} | a0", false)
+    ({ f with s := s' }, consumed, s!"{st} | {gettersF s'} | a0", false)
   | "chunk" =>
     let (s', r) := s.setChunk 0
     let st := match r with
       | .ok () => "ok"
       | .error e => e.render
-    (s', consumed, s!"{st} | {gettersF s'} | a0", false)
+    ({ f with s := s' }, consumed, s!"{st} | {gettersF s'} | a0", false)
   | "reset" =>
-    let s' := s.reset da u ()
-    (s', 0, s!"ok | {gettersF s'} | a0", false)
-  | "get" => (s, consumed, s!"ok | {gettersF s} | a0", false)
+    let s' := s.reset da u (SNum.zero (ρ := Float))
+    ({ f with s := s' }, 0, s!"ok | {gettersF s'} | a0", false)
+  | "get" => (f, consumed, s!"ok | {gettersF s} | a0", false)
   | _ => bad
 
-def newFft (kind : FKind) (p : List String) : Option (Except CErr (FState Unit Unit)) :=
+def newFft (kind : FKind) (p : List String) : Option (Except CErr (FftSlot σ)) :=
   let da := DivArith.f32
+  let mk (ri ro c sub n : Nat) : Except CErr (FftSlot σ) :=
+    -- sizes first (they do not depend on the unit), then the tables, then the state with the real unit
+    let wanted := if kind == .fftIo then c else c / sub
+    let (fi, fo) := fftSizes da ri ro wanted (kind == .fftOut)
+    let modelled := decide (fi ≤ fftModelLimit) && decide (fo ≤ fftModelLimit) && decide (0 < fi) && decide (0 < fo)
+    let tables : UnitTables σ :=
+      if modelled then UnitTables.make (ρ := Float) (fftCutoff f32Cutoff fi fo) fi fo
+      else { fftIn := fi, fftOut := fo, twIn := (#[], #[]), twOut := (#[], #[]), filterF := #[] }
+    let u : FftUnit σ (Array σ) :=
+      if modelled then UnitTables.unit (ρ := Float) tables else { init := #[], run := fun st _ => ([], st) }
+    match FState.init da u (SNum.zero (ρ := Float)) kind ri ro c sub n with
+    | .ok s => .ok { s := s, tables := tables, modelled := modelled }
+    | .error e => .error e
   match kind, p.map String.toNat? with
-  | .fftIo, [some ri, some ro, some c, some n] =>
-    some (FState.init da (unitUnit 0) () kind ri ro c 1 n)
+  | .fftIo, [some ri, some ro, some c, some n] => some (mk ri ro c 1 n)
   | .fftIn, [some ri, some ro, some c, some sub, some n]
   | .fftOut, [some ri, some ro, some c, some sub, some n] =>
-    if sub = 0 then none else some (FState.init da (unitUnit 0) () kind ri ro c sub n)
+    if sub = 0 then none else some (mk ri ro c sub n)
   | _, _ => none
 
+end
+
+/-! ### slots -/
+
+inductive Slot where
+  | a64 (s : AState Float Float) (consumed : Nat)
+  | a32 (s : AState Float Float32) (consumed : Nat)
+  | f64 (f : FftSlot Float) (consumed : Nat)
+  | f32 (f : FftSlot Float32) (consumed : Nat)
+
+structure Sess where
+  slots : Array (Option Slot) := #[]
+  dead : Bool := false
 
 /-! ### kernel protocol (C15): `kdot <T> <kind> <length> <index> <wave,hex,…> <sinc,hex,…>` -/
 
@@ -531,10 +558,17 @@ def step (ss : Sess) (line : String) : Sess × String :=
               | none => (ss, "bad-op")
             else (ss, "bad-op")
           | none, some k =>
-            match newFft k p with
-            | some (.ok s) => (setSlot ss i (some (.fft s 0)), s!"ok | {gettersF s}")
-            | some (.error e) => (setSlot ss i none, e.render)
-            | none => (ss, "bad-op")
+            if ty == "f64" then
+              match newFft (σ := Float) k p with
+              | some (.ok f) => (setSlot ss i (some (.f64 f 0)), s!"ok | {gettersF f.s}")
+              | some (.error e) => (setSlot ss i none, e.render)
+              | none => (ss, "bad-op")
+            else if ty == "f32" then
+              match newFft (σ := Float32) k p with
+              | some (.ok f) => (setSlot ss i (some (.f32 f 0)), s!"ok | {gettersF f.s}")
+              | some (.error e) => (setSlot ss i none, e.render)
+              | none => (ss, "bad-op")
+            else (ss, "bad-op")
           | none, none => (ss, "bad-op")
         | _ => (ss, "bad-op")
       else
@@ -546,9 +580,12 @@ def step (ss : Sess) (line : String) : Sess × String :=
         | some (.a32 s c) =>
           let (s', c', o, dead) := opAsync (fun x => x.toFloat32) s c op rest
           ({ setSlot ss i (some (.a32 s' c')) with dead := dead }, o)
-        | some (.fft s c) =>
-          let (s', c', o, dead) := opFft s c op rest
-          ({ setSlot ss i (some (.fft s' c')) with dead := dead }, o)
+        | some (.f64 f c) =>
+          let (f', c', o, dead) := opFft (fun x => x) f c op rest
+          ({ setSlot ss i (some (.f64 f' c')) with dead := dead }, o)
+        | some (.f32 f c) =>
+          let (f', c', o, dead) := opFft (fun x => x.toFloat32) f c op rest
+          ({ setSlot ss i (some (.f32 f' c')) with dead := dead }, o)
   | _ => (ss, "bad-op")
 
 end Rubato.Driver
